@@ -133,7 +133,9 @@ def shell_level(ctx):
     strs = [s for s in strs if "\x00" not in s]
     # real shell, batched
     script = "".join("printf '%%s\\0' %s\n" % shlex.quote(s) for s in strs)
-    out = subprocess.run(["/bin/sh", "-c", script], stdout=subprocess.PIPE, stderr=subprocess.PIPE, env=interposer.clean_env())
+    # (the script goes through stdin: as an argument it exceeds the kernel's limit in the thorough tier)
+    out = subprocess.run(["/bin/sh", "-s"], input=script.encode("utf-8", "surrogateescape"), stdout=subprocess.PIPE, stderr=subprocess.PIPE,
+                         env=interposer.clean_env())
     got = out.stdout.decode("utf-8", "surrogateescape").split("\0")[:-1]
     if len(got) != len(strs):
         ctx.violation("shell output has %d fields for %d quoted strings (splitting or failure)" % (len(got), len(strs)), {"stderr": out.stderr.decode()[:200]})
